@@ -110,7 +110,7 @@ func (valdec mapDecoder) decodeListAsMap(dec *Decoder, p interface{}, tag byte) 
 	}
 	mp := reflect2.PtrOf(p)
 	count := dec.readCount()
-	valdec.t.UnsafeSet(mp, valdec.t.UnsafeMakeMap(prealloc(count) >> 6))
+	valdec.t.UnsafeSet(mp, valdec.t.UnsafeMakeMap(prealloc(count) >> 2))
 	dec.AddReference(p)
 	kp := valdec.kt.UnsafeNew()
 	vp := valdec.vt.UnsafeNew()
@@ -145,7 +145,7 @@ func (valdec mapDecoder) hashable(dec *Decoder, kp unsafe.Pointer) bool {
 func (valdec mapDecoder) decodeMap(dec *Decoder, p interface{}) {
 	mp := reflect2.PtrOf(p)
 	count := dec.readCount()
-	valdec.t.UnsafeSet(mp, valdec.t.UnsafeMakeMap(prealloc(count) >> 6))
+	valdec.t.UnsafeSet(mp, valdec.t.UnsafeMakeMap(prealloc(count) >> 2))
 	dec.AddReference(p)
 	kp := valdec.kt.UnsafeNew()
 	vp := valdec.vt.UnsafeNew()
@@ -176,7 +176,7 @@ func (valdec mapDecoder) decodeObjectAsMap(dec *Decoder, p interface{}, tag byte
 	structInfo := dec.getStructInfo(index)
 	mp := reflect2.PtrOf(p)
 	count := len(structInfo.names)
-	valdec.t.UnsafeSet(mp, valdec.t.UnsafeMakeMap(prealloc(count) >> 6))
+	valdec.t.UnsafeSet(mp, valdec.t.UnsafeMakeMap(prealloc(count) >> 2))
 	dec.AddReference(p)
 	if fields := structInfo.fields; fields != nil {
 		for _, name := range structInfo.names {
